@@ -154,7 +154,8 @@ def main():
         'checks': checks,
         'not_applicable': sorted(na, key=lambda d: d['property_id']),
         'notes': 'Technique family: deterministic simulation with fault injection only. '
-                 'Exit 2 + HARNESS-ERROR = the machinery itself failed (never a VIOLATION). '
+                 'Exit 2 + HARNESS-ERROR = the machinery itself failed and no replayable violation '
+                 'was found next to it (a harness failure is never turned into a VIOLATION). '
                  'Known findings: /verif/known_findings.txt (read-only at run time).',
     }
     path = os.path.join(ROOT, 'MANIFEST.json')
